@@ -5,7 +5,7 @@ The precedence ladder below is the DOCUMENTED one (Help:Extension:ParserFunction
 highest first; every binary operator is left-associative:
 
    9  unary + -, binary e        8  not ceil trunc floor abs exp ln sin cos tan acos asin atan sqrt
-   7  ^     6  * / div mod       5  + -      4  round      3  = != <> > < >= <=     2  and     1  or
+   7  ^     6  * / div mod fmod  5  + -      4  round      3  = != <> > < >= <=     2  and     1  or
 
 AST:  ("n", literal) | ("c", "pi"|"e") | ("neg", x) | ("pos", x) | ("u", fname, x) | ("b", op, l, r)
 """
@@ -13,7 +13,7 @@ from __future__ import annotations
 
 import math
 
-BIN_RUNG = {"e": 9, "^": 7, "*": 6, "/": 6, "div": 6, "mod": 6, "+": 5, "-": 5, "round": 4,
+BIN_RUNG = {"e": 9, "^": 7, "*": 6, "/": 6, "div": 6, "mod": 6, "fmod": 6, "+": 5, "-": 5, "round": 4,
             "=": 3, "!=": 3, "<>": 3, ">": 3, "<": 3, ">=": 3, "<=": 3, "and": 2, "or": 1}
 RUNG_NAME = {9: "e", 8: "fn", 7: "pow", 6: "mul", 5: "add", 4: "round", 3: "cmp", 2: "and", 1: "or"}
 BIN_OPS = list(BIN_RUNG)
@@ -25,6 +25,10 @@ ATOM = 100
 
 class PrimitiveError(Exception):
     """The primitive returned an error string (e.g. 'Divide by zero')."""
+
+
+class MissingOperator(Exception):
+    """The primitive table has no entry for a documented operator."""
 
 
 class Skip(Exception):
@@ -113,18 +117,20 @@ def evaluate(a, prims):
         except (ValueError, OverflowError, ZeroDivisionError, TypeError) as e:
             raise Skip("primitive %s raised %s" % (a[1], type(e).__name__))
         if isinstance(r, str):
-            raise PrimitiveError(r)
+            raise PrimitiveError(r, a[1])
         return r
     x = evaluate(a[2], prims)
     y = evaluate(a[3], prims)
     if a[1] == "e" and abs(y) > (60 if isinstance(y, int) else 300):
         raise Skip("exponent of e out of range")      # the integer primitive loops |y| times
+    if a[1] not in prims["binary"]:
+        raise MissingOperator(a[1])
     try:
         r = prims["binary"][a[1]](x, y)
     except (ValueError, OverflowError, ZeroDivisionError, TypeError) as e:
         raise Skip("primitive %s raised %s" % (a[1], type(e).__name__))
     if isinstance(r, str):
-        raise PrimitiveError(r)
+        raise PrimitiveError(r, a[1])
     if isinstance(r, int) and not isinstance(r, bool) and abs(r) > 10 ** 400:
         raise Skip("integer too large")
     return r
@@ -147,7 +153,7 @@ def expected(a, prims):
     try:
         return fmt(evaluate(a, prims))
     except PrimitiveError as e:
-        return str(e)
+        return str(e.args[0])
     except RecursionError:
         raise Skip("recursion")
 
@@ -378,7 +384,7 @@ def shape(a):
         return "atom:" + ("const" if a[0] == "c" else ("float" if "." in a[1] else "int"))
     if n == 1:
         if a[0] == "b":
-            return "single-op:" + rung_of(a)
+            return "single-op:%s(%s)" % (rung_of(a), a[1])
         if a[0] == "u":
             return "single-op:fn"
         return "single-op:sign"
